@@ -44,7 +44,7 @@ func (e *Env) MatrixFrom(name string, dec *jsontext.Decoder) (string, error) {
 	e.yield("peer/" + name)
 	if e.CheckOpts != nil {
 		if msg := e.CheckOpts(dec.Options()); msg != "" {
-			e.finding(name+": "+msg)
+			e.finding(name + ": " + msg)
 		}
 	}
 	switch b.Kind {
@@ -65,10 +65,11 @@ func (e *Env) MatrixFrom(name string, dec *jsontext.Decoder) (string, error) {
 		dec.ReadToken() // if the value is a container this leaves it open
 		return name + ":open", nil
 	case BReset:
+		e.FreshDecoderProbe(name, dec)
 		func() {
 			defer func() {
 				if r := recover(); r == nil {
-					e.finding(name+": Decoder.Reset inside an unmarshal call did not panic")
+					e.finding(name + ": Decoder.Reset inside an unmarshal call did not panic")
 				}
 			}()
 			dec.Reset(io.LimitReader(nil, 0))
